@@ -1059,7 +1059,10 @@ def rule_call_registers(rep, idx, rid='R14'):
                                                                                ('k', 'call', 'k'), ('k', 'k', 'call'), ('k', 'var', 'k'), ('k', 'gr-call', 'k'),
                                                                                # a bare call next to a compound actual that contains a call, in both orders
                                                                                ('call', 'gr-call'), ('call', 'neg-call'), ('gr-call', 'call'), ('neg-call', 'call'),
-                                                                               ('call', 'var', 'gr-call'), ('gr-call', 'neg-call')]):
+                                                                               ('call', 'var', 'gr-call'), ('gr-call', 'neg-call'),
+                                                                               # a call hidden inside an array subscript
+                                                                               ('var', 'sub-call'), ('sub-call', 'var'), ('num', 'sub-call'), ('op', 'sub-call'),
+                                                                               ('call', 'sub-call'), ('var', 'var', 'sub-call')]):
             M = CodeGenModel(idx, 'A')
             for n in ('a', 'b', 'c', "a'", "b'", "c'"):
                 M.symbol(n, 'VAR', 'f')
@@ -1072,6 +1075,8 @@ def rule_call_registers(rep, idx, rid='R14'):
             ok_['gr-call'] = lambda n: M.X.binop('GR', M.X.call('fn_' + n, [M.X.num(1)]), M.X.var(n))
             ok_['neg-call'] = lambda n: M.X.unop('MINUS', M.X.call('fn_' + n, [M.X.num(1)]))
             ok_['k'] = lambda n: M.X.num(7)          # the same constant in several positions
+            M.symbol('arr', 'ARRAY', '')
+            ok_['sub-call'] = lambda n: M.X.sub('arr', M.X.call('fn_' + n, [M.X.num(1)]))
             M.real_contains_call = True
             # every actual goes through the passes the driver runs before code generation (annotations included)
             actuals = [run_pipeline(M, ok_[k](n)) for k, n in zip(kinds, ('a', 'b', 'c'))]
